@@ -1480,7 +1480,7 @@ def augassign_stream(ctx: Ctx, only: Optional[List[Any]] = None, stream: str = "
         keep = [c for c in cases if c[0][0] in ("a", "a + b", "a ** b", "-a", "a or b") or c[1][0] in ("a", "a - b", "a * b")]
         rest = [c for c in cases if c not in keep]
         ctx.rng.shuffle(rest)
-        cases = keep + rest[:700]
+        cases = keep + rest[:500]
     for _ in range(150 if ctx.quick else 4000):      # chains of several augmented assignments
         steps = [(ctx.rng.choice(operands), "")]
         for _k in range(ctx.rng.randint(2, 3)):
@@ -1647,7 +1647,7 @@ def regex_stream(ctx: Ctx, only: Optional[List[str]] = None, stream: str = "rege
     pats: List[Any] = list(RE_PATTERNS)
     atoms = ["a", "b", ".", r"\d", r"\w", "[ab]", "[^a-c]", "0", "[1]", r"\ ", r"\#", "[ ]", "#", "(?x)", r"[a\-c]", r"[\w\-]", r"[\]a]", r"[\\a]", r"[\^]", "(a)", "(?:b)", "(?P<g>c)", "^", "$", r"\b", "|", "*", "+", "?",
              "{2}", "{1,3}", "*?", r"\.", r"\\", "'", '"', " ", "é", r"\n", "(?i)", "(?=a)", "(?!b)", r"\1", "-", "]", "x{,2}"]
-    for _ in range(100 if ctx.quick else 6000):
+    for _ in range(60 if ctx.quick else 6000):
         pats.append("".join(ctx.rng.choice(atoms) for _ in range(ctx.rng.randint(1, 6))))
     n_eq = n_same = 0
     srcs: List[str] = []
@@ -1915,7 +1915,7 @@ def run(ctx: Ctx) -> None:
     b.flush()
     # 5. random deeper trees
     b = Batch(ctx, "random")
-    n = 1200 if ctx.quick else 60000
+    n = 1000 if ctx.quick else 60000
     for _ in range(n):
         src = rand_expr(ctx.rng, ctx.rng.randint(3, 5))
         if len(src) > 400:
